@@ -189,6 +189,7 @@ CHECKS = {
         assumptions=ASSUME_COMMON + ["hands are not twinned (the manager builds its own backend); hand-level effects of the player-game methods are covered by the facade part"],
     ),
     "C18": dict(
+        crash_is_violation=True,
         parts=[
             dict(pkg="actor", run="^TestC18$",
                  quick=dict(shards=4, checks=60, timeout=300),
